@@ -246,3 +246,19 @@ LEVEL_TEXT += _ADD21
 _ADD22 = ' Borrowed: R02.5 (TypedDict helper body, keys included).'
 EXPLANATION += _ADD22
 LEVEL_TEXT += _ADD22
+
+
+_run_before_r5 = run
+
+
+def run(repo, rep, tier):  # noqa: F811 -- round-5 shape rules appended to the rules above
+    _run_before_r5(repo, rep, tier)
+    if getattr(rep, "borrowed", False):
+        return
+    from ..core import round5 as _r5
+    _r5.namedtuple_field_names_quoted(repo, rep, "R16.6")
+
+
+_ADDR5B = ' R16.6: in pack_named_tuple / unpack_named_tuple a field name from `_fields` reaches generated text only as a quoted key, never in identifier position (functional-API names are not NFKC-normalised, source identifiers are). This narrows assumption A-ident for named tuples.'
+EXPLANATION += _ADDR5B
+LEVEL_TEXT += _ADDR5B
